@@ -173,7 +173,7 @@ def main():
         }],
         "checks": checks,
         "not_applicable": na,
-        "notes": "add_only is false because zbus/src/message/header.rs splits one `use` line into cfg'd variants (instrumented AtomicU32) and Cargo.toml's check-cfg list gained 'cfg(zbus_verif)'; all other hook changes are additions. Exit codes: 0 held, 1 VIOLATION, 2 harness error.",
+        "notes": "add_only is false because zbus/src/message/header.rs splits one `use` line into cfg'd variants (instrumented AtomicU32), zbus/src/abstractions/async_lock.rs does the same for the lock re-export (wrappers with a scheduling point) and Cargo.toml's check-cfg list gained 'cfg(zbus_verif)'; all other hook changes are additions. Exit codes: 0 held, 1 VIOLATION, 2 harness error.",
     }
     with open(os.path.join(VERIF, "MANIFEST.json"), "w") as f:
         json.dump(manifest, f, indent=1)
